@@ -335,7 +335,11 @@ func c20Workload(seed int64, fonts *c20Fonts, reps int, sharedPDF bool) []c20Cal
 						return "err:" + err.Error()
 					}
 					// the generated name embeds the global counter: by design it differs between calls;
-					// only its shape and the font are part of the result
+					// only its shape and the font are part of the result. Every load must get a name of its
+					// own, though: the names of one process are collected and compared at its end
+					c20NonameMu.Lock()
+					c20NonameSeen[f.Name()]++
+					c20NonameMu.Unlock()
 					return fmt.Sprintf("%v/%d", strings.HasPrefix(f.Name(), "f"), f.SFNT.NumGlyphs())
 				})
 			}
@@ -517,6 +521,11 @@ func runCall(c c20Call) (d string) {
 	return d
 }
 
+var (
+	c20NonameMu   sync.Mutex
+	c20NonameSeen = map[string]int{}
+)
+
 func c20TunablesDefault() bool {
 	// the option defaults of the back-ends are package variables too
 	if pd := pdf.DefaultOptions; !pd.Compress || !pd.SubsetFonts || pd.ImageEncoding != canvas.Lossless {
@@ -628,6 +637,17 @@ func C20Child(spec, out string) int {
 			rg := core.NewRng(a.Seed, "C20", "goroutine", g)
 			go func() {
 				defer wg.Done()
+				// a burst of loads of the font without a name table: the generated names come from a
+				// process-wide counter
+				if fonts.nonameOK {
+					for k := 0; k < 40; k++ {
+						if f, err := canvas.LoadFont(fonts.noname, 0, canvas.FontRegular); err == nil {
+							c20NonameMu.Lock()
+							c20NonameSeen[f.Name()]++
+							c20NonameMu.Unlock()
+						}
+					}
+				}
 				for _, i := range rg.Perm(len(calls)) {
 					s := clock.Add(1)
 					d := runCall(calls[i])
@@ -669,6 +689,17 @@ func C20Child(spec, out string) int {
 	if !c20TunablesDefault() {
 		res.Diverged = append(res.Diverged, "package tunables changed during the run")
 	}
+	c20NonameMu.Lock()
+	dups := 0
+	for name, n := range c20NonameSeen {
+		if n > 1 {
+			dups++
+			if dups <= 3 {
+				res.Diverged = append(res.Diverged, fmt.Sprintf("LoadFont gave the generated name %q to %d fonts without a name table loaded in this process", name, n))
+			}
+		}
+	}
+	c20NonameMu.Unlock()
 	b, _ := json.Marshal(res)
 	os.WriteFile(out, b, 0o644)
 	return 0
@@ -915,6 +946,9 @@ func c20Driver(d *core.Driver) int {
 			viol("concurrent round %s%d (%d goroutines, GOMAXPROCS %d) did not complete: %s", tag, round, gp[0], gp[1], e)
 			roundsAborted = true
 			return
+		}
+		if len(r.Diverged) > 0 {
+			viol("concurrent round %s%d (%d goroutines, GOMAXPROCS %d): %s", tag, round, gp[0], gp[1], strings.Join(r.Diverged[:min(len(r.Diverged), 5)], "; "))
 		}
 		// results of concurrent executions vs the sequential reference of the same seed
 		seqRef := ref
